@@ -36,7 +36,7 @@ ASSUMPTIONS = [
     "part 2 compares two real renders (family vs flat); the flat program's agreement with the reference interpreter is C01's subject",
     "a block/include region never contains a print of the enclosing fill's default alias (such a region could re-enter itself; {% block %} is not re-entrant in stock Django)",
 ]
-BOUNDS = {"quick": {"stock": 7200, "compose": 3600}, "thorough": {"stock": 40000, "compose": 15000}}
+BOUNDS = {"quick": {"stock": 7200, "compose": 3600}, "thorough": {"stock": 160000, "compose": 60000}}
 
 _PATCHED = {}
 
@@ -375,7 +375,7 @@ def attribute(case, message, bucket):
 
 def plan(tier, seed, scale=1.0):
     b = BOUNDS[tier]
-    shards = 12 if tier == "quick" else 24
+    shards = 12 if tier == "quick" else 96
     specs = [{"kind": "stock", "n": max(1, int(b["stock"] * scale) // shards), "seed": derive_seed(seed, "c10s", sh)} for sh in range(shards)]
     specs += [{"kind": "compose", "n": max(1, int(b["compose"] * scale) // shards), "seed": derive_seed(seed, "c10c", sh)} for sh in range(shards)]
     return specs
